@@ -463,6 +463,12 @@ _DI = "src/sedpack/io/dataset_iteration.py"
 _DB = "src/sedpack/io/dataset_base.py"
 _MG = "src/sedpack/io/merge_shard_infos.py"
 SELFTESTS = [
+    dict(rule="C03.det", name="map-not-deterministic", expect="fire", path=_DI,
+         old="                    num_parallel_calls=parallelism,\n                )\n            if shuffle:\n                tf_dataset = tf_dataset.shuffle(shuffle)\n            if batch_size > 0:\n                # Batch",
+         new="                    num_parallel_calls=parallelism,\n                    deterministic=False,\n                )\n            if shuffle:\n                tf_dataset = tf_dataset.shuffle(shuffle)\n            if batch_size > 0:\n                # Batch"),
+    dict(rule="C03.det", name="map-deterministic-unless-shuffled-twin", expect="silent", path=_DI,
+         old="                    num_parallel_calls=parallelism,\n                )\n            if shuffle:\n                tf_dataset = tf_dataset.shuffle(shuffle)\n            if batch_size > 0:\n                # Batch",
+         new="                    num_parallel_calls=parallelism,\n                    deterministic=None if shuffle else True,\n                )\n            if shuffle:\n                tf_dataset = tf_dataset.shuffle(shuffle)\n            if batch_size > 0:\n                # Batch"),
     dict(rule="C03.append", name="shard-inserted-in-front", expect="fire",
          path="src/sedpack/io/dataset_filler.py",
          old="        self._shards_lists[split].shard_files.append(shard_info)\n",
